@@ -9,23 +9,28 @@ THEOREM_OF = {
     "multi-output": "C07_iter_exec_runs",
     "multi-output-empty": "C07_iter_exec_zero",
     "malformed-result": "C07_box_kernel_wf",
+    "stale-sorted-mark": "C07_kernel_eq_generic",
 }
 
 
 def run(r):
     quick = r.tier == "quick"
     r.trusted += TRUSTED_COMMON + [
-        "Model/Prims.v is the reference semantics of the primitives F that are applied 'by hand' (validated against the implementation by C08's tie)",
-        "the by-hand evaluator of the harness (rows/elements/pairs/prefixes through separate interpreter runs of F, strict assembly) is the executable reading of the documentation for operands outside the Coq catalogue",
-        "sortedness marks are not part of the kernel model (C06); numbers are integers in the Coq arrays (infinite identities of empty min/max reductions are compared by the search only)",
+        "Model/Prims.v is the reference semantics of the primitives F that are applied 'by hand' in the Coq definitions (validated against the implementation by C08's tie)",
+        "Model/Kernels.v (depth kernels, fast-path selection, rank limit, inventory's compile-time split) and Model/RoutePack.v (n-ary fork / bracket) are hand transcriptions of zip.rs, monadic/mod.rs, reduce.rs, compile/modifier.rs and run_prim.rs; Kernels.v is tied on every run, RoutePack.v is connected by the search only",
+        "the by-hand evaluator of the harness (rows / elements / pairs / prefixes / routed arguments through separate interpreter runs of F, strict assembly with Value::from_row_values_infallible) is the executable reading of the documentation for everything outside the Coq catalogue; it uses the interpreter itself to run F and to select rows",
+        "sortedness marks are not part of the kernel model (C06 covers them; the search feeds marked arguments); numbers are integers in the Coq arrays (infinite identities of empty min/max reductions, NaN, complex numbers and boxes are compared by the search only)",
+        "peephole optimisations (compile/optimize.rs) rewrite some composites before f_mon_fast_fn sees them; the Coq catalogue avoids those pairs, the search covers them against the by-hand results",
     ]
     r.assumptions += [
         "arrays satisfy length(data) = product(shape) (C05; premise wf)",
-        "kernel_eq theorems: every mapped axis is non-empty for exact equality; over an empty mapped axis only the leading lengths are claimed (the property's carve-out)",
-        "composition / reduce-under-rows theorems: the nesting depth does not exceed the rank (below it the faithful kernels are refuted, see the *_refuted theorems)",
-        "routing specs: the operands' frame behaviour (Frame.sig_sound) is a premise",
-        "fork / bracket with a pack of n functions: Model/Exec.v carries the 2-function forms only; the n-ary laws are proved of Model/RoutePack.v (transcription of run_prim.rs with operands as pure argument->output maps) and connected to the implementation by the search only (packs of 3-4 functions of mixed arities, distinguishable arguments); subscripted both/on/by/with/off and dip/gap chains are search only",
-        "spine-level theorems about the iterating modifiers (iter_operand_ext, iter_exec_zero, iter_exec_runs) are about Model/Exec.v's iter_exec, where the array side (how many runs, which arguments, how results are assembled) is an oracle; the array side is what Kernels.v and the tie cover",
+        "kernel_eq_generic / box_kernel_eq / exec_rows_atom_eq: exact equality when every mapped axis is non-empty, for arrays of any rank (also below the nesting depth); over an empty mapped axis only the leading lengths are claimed (kernel_empty_lead; the property's carve-out)",
+        "kernels under theorems: identity, reverse, first, last, deshape, fix, box (and any blockwise kernel through blockwise_generic); transpose, sort, classify, pervasives, reduce at depth (fast_reduce, generic_reduce_inner), scan, table and the dyadic fast paths are covered by the tie (transpose, sort, pervasives, reduce) and the search only",
+        "the *_refuted_pre theorems are records about the model of the code BEFORE the fix commits 73cdc70, f64950a, 3374592, 68a793c, 09b3e8b (flag pre = true); the current model (pre = false) is what the tie compares",
+        "routing specs over Model/Exec.v: the operands' frame behaviour (Frame.sig_sound) is a premise",
+        "fork / bracket with a pack of n functions: Model/Exec.v carries the 2-function forms only; the n-ary laws are proved of Model/RoutePack.v (operands as pure argument->output maps) and connected to the implementation by the search only; subscripted both/on/by/with/off, dip/gap chains, backward and self are search only",
+        "spine-level theorems about the iterating modifiers (iter_operand_ext, iter_exec_zero, iter_exec_runs) are about Model/Exec.v's iter_exec, where the array side (how many runs, which arguments, how results are assembled) is an oracle; the array side is what Kernels.v, the tie and the search cover",
+        "scalar second arguments under rows and the trailing shape / element type over empty mapped axes are outside the property and not compared",
     ]
     if not r.harness(["c07"]):
         return
@@ -130,13 +135,22 @@ def run(r):
         seen.add(full)
         r.violation(full, "`%s` (%s) on %s gives %s; by hand: %s" % (v["program"], v["variant"], v["args"], v["got"], v["by_hand"]),
                     {"program": v["program"], "variant": v["variant"], "args": v["args"], "got": v["got"], "by_hand": v["by_hand"],
-                     "cmd": "VERIF_SEED=%d c07 search %d" % (r.seed, m)}, theorem=THEOREM_OF.get(v["class"], "C07_kernel_eq_generic"))
+                     "cmd": "VERIF_SEED=%d c07 search %d" % (r.seed, m)}, theorem=THEOREM_OF.get(v["class"].split(":")[0], "C07_kernel_eq_generic"))
     r.log("search: %d interpreter runs, %d comparisons, %d distinct disagreements" % (evals, compared, len(viols)))
     r.coverage["evaluations"] = len(cases) + evals
     r.coverage["distinct_nontrivial"] = len(set((c["prog"], c["x"]) for c in rep if "[]" not in c["x"])) + compared // 3
-    r.coverage["rule"] = ("tie: catalogue operand (26: fast-path atoms, generic atoms, composites with equal / unequal kernel depths) x nesting 1-3 x integer or character "
-                          "array of rank 1-4, axis lengths 0-3, leading axis forced to 1 / 0 in 30% of the cases; search: operand from 44 monadic / 18 dyadic "
-                          "functions x {direct, named wrapper, `(F∘)`} x modifier family x arrays of every element type, rank 1-3; routing: the 13 modifiers with one or two operands, fork and bracket with packs of 3-4 functions of mixed arities (directed corpus with a first function of smaller arity), both with subscripts 2-4, on/by/with/off with subscript 2, dip/gap chains, whole stack compared incl. the values beneath; plus operands with 2-3 outputs (constants, random numbers, by/on/fork/bracket inside the operand) under rows (depth 1-2), each, inventory, table, fold, ALL outputs compared in order (one iteration in six and a fixed corpus); plus a directed family (fixed corpus and one iteration in six): "
-                          "reduce / scan / table / fold / rows / each of operands with primitive-specialised paths on arguments that carry run-time sortedness marks "
-                          "(sort, reversed sort, select by rise; ties; byte and float storage; rank 1-3, rows ordered while later columns are not monotone); "
-                          "non-trivial = array with at least one element")
+    r.coverage["rule"] = (
+        "tie (every run): 26 catalogue operands (fast-path atoms, generic atoms, composites with equal / unequal kernel depths, rows inside the operand) x nesting 1-3 x integer or "
+        "character array of rank 1-4, axis lengths 0-3, leading axis forced to 1 / 0 in 30% of the cases; the interpreter's result is compared in Coq with BOTH the transcribed kernel "
+        "(exactly) and the definition (the property's relation). "
+        "search (every run), each case = direct / named binding / `(F∘)` noise against the result assembled by hand: "
+        "(1) 44 monadic and 21 dyadic single-output operands under rows (nesting 1-3), each (1 and 3 arguments), inventory (nesting 1-2), rows with two arguments, table (also ⊞₋₁ / ⊞₋₂), "
+        "reduce and scan (bare and under 1-2 rows), fused reduce-table, fold, repeat, group / partition with box, arrays of every element type, rank 1-3, forced length-1 / empty axes; "
+        "(2) routing: dip gap on by with off above below both bracket fork backward self with one or two operands, fork and bracket with packs of 3-4 functions of mixed arities, both with "
+        "subscripts 2-4, on/by/with/off with subscript 2, dip/gap chains; the whole stack is compared, the values beneath included; "
+        "(3) operands with 2-3 outputs (constants, random numbers, by / on / fork / bracket inside the operand) under rows (depth 1-2), each, inventory, rows with two arguments, table, fold "
+        "with two accumulators: ALL outputs compared in order; "
+        "(4) arguments that carry run-time sortedness marks (sort, reversed sort, select by rise; ties; byte and float storage; rank 1-3; rows ordered while later columns are not monotone) "
+        "under every modifier with a primitive-specialised path; "
+        "(5) fixed corpora replayed first: the inputs of all earlier findings and of the repaired defects (rounds 1-5) and the directed packs. "
+        "Families (3), (4) and the pack part of (2) take one iteration in six each. non-trivial = array with at least one element")
